@@ -1,0 +1,60 @@
+//go:build verif
+
+package semver
+
+import (
+	"fmt"
+	"strings"
+)
+
+// This file is only compiled with the "verif" build tag. It exposes the
+// internals of the constraint/span/set algebra to an external verification
+// harness; it adds no behaviour.
+
+// VerifToken is System.token.
+func VerifToken(sys System, str string) (typ int, tok string, n int) {
+	t, s, i := sys.token(str)
+	return int(t), s, i
+}
+
+// VerifDumpSpan renders a span as (rank minOpen maxOpen min max) where min and
+// max are VerifDump renderings ("()" for a nil version).
+func VerifDumpSpan(s span) string {
+	bit := func(x bool) int {
+		if x {
+			return 1
+		}
+		return 0
+	}
+	return fmt.Sprintf("(%d %d %d %s %s)", int(s.rank), bit(s.minOpen), bit(s.maxOpen), VerifDumpOpt(s.min), VerifDumpOpt(s.max))
+}
+
+// VerifDumpOpt is VerifDump with "()" for a nil version.
+func VerifDumpOpt(v *Version) string {
+	if v == nil {
+		return "()"
+	}
+	return VerifDump(v)
+}
+
+// VerifDumpSet renders a Set as (sys (span...)).
+func VerifDumpSet(s Set) string {
+	var b strings.Builder
+	fmt.Fprintf(&b, "(%d (", int(s.sys))
+	for i, sp := range s.span {
+		if i > 0 {
+			b.WriteByte(' ')
+		}
+		b.WriteString(VerifDumpSpan(sp))
+	}
+	b.WriteString("))")
+	return b.String()
+}
+
+// VerifSetMatch is Set.matchVersion with an explicit includePrerelease flag.
+func VerifSetMatch(s Set, v *Version, includePrerelease bool) bool {
+	return s.matchVersion(v, includePrerelease)
+}
+
+// VerifSpanCount reports the number of spans of the set.
+func VerifSpanCount(s Set) int { return len(s.span) }
